@@ -145,6 +145,9 @@ Definition sec_content (wsse : option security) : hres (list href * list str) :=
 (* Binding.mkheader / headercontent                                    *)
 (* ------------------------------------------------------------------ *)
 Definition is_list (v : value) : bool := match v with VList _ => true | _ => false end.
+(* a list directly inside a list-valued entry *)
+Definition has_list_item (v : value) : bool :=
+  match v with VList l => existsb is_list l | _ => false end.
 
 (* Element.setPrefix(p, u) on the entry: the entry is in namespace u *)
 Definition set_ns (ns : nsid) (n : xnode) : xnode :=
@@ -155,21 +158,19 @@ Variable S : schema.
 Variable xstq : bool.
 Variable st : store.
 
-(* mkheader followed by h.setPrefix(...):
-   - a list/tuple value comes back as a Python list of elements (after every
-     item was marshalled, so an item's exception wins): a list has no setPrefix;
+(* the local function add(pt, header) of headercontent: mkheader, then one
+   setPrefix + append per node.
+   - mkheader maps itself over a list/tuple value (every item is marshalled
+     before anything is appended, so an item's exception wins) and add appends
+     one element per item;
    - a value the marshaller skips (None for an optional declaration) comes back
-     as None: no setPrefix either *)
-Definition mkheader_setprefix (d : edecl) (v : value) : hres xnode :=
+     as None and adds nothing;
+   - add looks one level deep only: a list inside the list is handed to
+     setPrefix, which a list does not have. *)
+Definition add_entry (d : edecl) (v : value) : hres (list xnode) :=
   match of_mres (marshal_elem S xstq d false v) with
   | HErr e => HErr e
-  | HOk ns =>
-      if is_list v then HErr EAttr
-      else match ns with
-           | [n] => HOk (set_ns (elem_ns d) n)
-           | [] => HErr EAttr
-           | _ => HErr EOther
-           end
+  | HOk ns => if has_list_item v then HErr EAttr else HOk (map (set_ns (elem_ns d)) ns)
   end.
 
 (* deepcopy(header) *)
@@ -183,12 +184,16 @@ Fixpoint seq_loop (pts : list edecl) (n : nat) (hs : list hval) : hres (list hre
   | HElem i :: hs' =>
       hbind (copy_of i) (fun c => hbind (seq_loop pts n hs') (fun r => HOk (c :: r)))
   | HVal v :: hs' =>
-      if Nat.eqb (length pts) n then HOk []                    (* break *)
+      if Nat.eqb (length pts) n then seq_loop pts n hs'        (* continue: a surplus plain value *)
       else match nth_error pts n with
            | None => HErr EOther                                (* IndexError: n never exceeds len(pts) *)
            | Some d =>
-               hbind (mkheader_setprefix d v) (fun h =>
-               hbind (seq_loop pts (Datatypes.S n) hs') (fun r => HOk (RFresh h :: r)))
+               match v with
+               | VNone => seq_loop pts (Datatypes.S n) hs'      (* "if header is not None": the part is left out *)
+               | _ =>
+                   hbind (add_entry d v) (fun h =>
+                   hbind (seq_loop pts (Datatypes.S n) hs') (fun r => HOk (map RFresh h ++ r)))
+               end
            end
   end.
 
@@ -206,8 +211,8 @@ Fixpoint dict_loop (pts : list edecl) (dict : list (name * value)) : hres (list 
       match dict_get (e_name d) dict with
       | None | Some VNone => dict_loop pts' dict                (* continue *)
       | Some v =>
-          hbind (mkheader_setprefix d v) (fun h =>
-          hbind (dict_loop pts' dict) (fun r => HOk (RFresh h :: r)))
+          hbind (add_entry d v) (fun h =>
+          hbind (dict_loop pts' dict) (fun r => HOk (map RFresh h ++ r)))
       end
   end.
 
@@ -229,7 +234,79 @@ Definition headercontent (pts : list edecl) (wsse : option security) (sh : soaph
   | SHOne _ => HErr EOther                                       (* normalise never returns it *)
   end).
 
+(* ---- the same function as it was before the repairs 02a92ff, dfdc017 and
+   c4ebdf6, one switch per repaired defect (kept for the regression witnesses
+   in Props.v and so that the harness can name the defect when an
+   implementation shows one of these behaviours again) ---- *)
+Record quirks := mkQ {
+  q_list : bool;        (* a list-valued entry is handed to setPrefix as a whole: AttributeError *)
+  q_skipped : bool;     (* a node the marshaller skipped (None) is handed to setPrefix: AttributeError *)
+  q_break : bool;       (* the positional loop breaks at the first surplus plain value *)
+  q_none : bool }.      (* a positional None is marshalled like any other value *)
+
+Section Before.
+Variable q : quirks.
+
+(* an item for which mkheader returns None *)
+Definition skipped_item (d : edecl) (x : value) : bool :=
+  match x with VNone => e_opt d | _ => false end.
+
+Definition add_entry_q (d : edecl) (v : value) : hres (list xnode) :=
+  match of_mres (marshal_elem S xstq d false v) with
+  | HErr e => HErr e
+  | HOk ns =>
+      match v with
+      | VList l =>
+          if q_list q || existsb is_list l || (q_skipped q && existsb (skipped_item d) l) then HErr EAttr
+          else HOk (map (set_ns (elem_ns d)) ns)
+      | _ => if q_skipped q && skipped_item d v then HErr EAttr else HOk (map (set_ns (elem_ns d)) ns)
+      end
+  end.
+
+Fixpoint seq_loop_q (pts : list edecl) (n : nat) (hs : list hval) : hres (list href) :=
+  match hs with
+  | [] => HOk []
+  | HElem i :: hs' =>
+      hbind (copy_of i) (fun c => hbind (seq_loop_q pts n hs') (fun r => HOk (c :: r)))
+  | HVal v :: hs' =>
+      if Nat.eqb (length pts) n then (if q_break q then HOk [] else seq_loop_q pts n hs')
+      else match nth_error pts n with
+           | None => HErr EOther
+           | Some d =>
+               if negb (q_none q) && match v with VNone => true | _ => false end
+               then seq_loop_q pts (Datatypes.S n) hs'
+               else hbind (add_entry_q d v) (fun h =>
+                    hbind (seq_loop_q pts (Datatypes.S n) hs') (fun r => HOk (map RFresh h ++ r)))
+           end
+  end.
+
+Fixpoint dict_loop_q (pts : list edecl) (dict : list (name * value)) : hres (list href) :=
+  match pts with
+  | [] => HOk []
+  | d :: pts' =>
+      match dict_get (e_name d) dict with
+      | None | Some VNone => dict_loop_q pts' dict
+      | Some v =>
+          hbind (add_entry_q d v) (fun h =>
+          hbind (dict_loop_q pts' dict) (fun r => HOk (map RFresh h ++ r)))
+      end
+  end.
+
+Definition headercontent_q (pts : list edecl) (wsse : option security) (sh : soapheaders)
+  : hres (list href * list str) :=
+  hbind (sec_content wsse) (fun c0 =>
+  match normalise sh with
+  | SHSeq [] | SHDict [] => HOk c0
+  | SHSeq l => hbind (seq_loop_q pts 0 l) (fun r => HOk (fst c0 ++ r, snd c0))
+  | SHDict l => hbind (dict_loop_q pts l) (fun r => HOk (fst c0 ++ r, snd c0))
+  | SHOne _ => HErr EOther
+  end).
+End Before.
+
 End Headers.
+
+Definition repaired : quirks := mkQ false false false false.
+Definition before_repairs : quirks := mkQ true true true true.
 
 (* Binding.header: header.append(content) — Element.append sets child.parent *)
 Fixpoint set_parent (st : store) (i m : nat) : store :=
@@ -281,10 +358,11 @@ Variable trees : list xnode.         (* the caller's ready-made elements *)
 
 (* one configured entry for a declared part: marshalled per its schema (C01's
    reference translator) — the element is named and qualified by the part's own
-   declaration; no value = the part is omitted.  None = the value does not fit
-   the schema: the property says nothing. *)
+   declaration; no value = the part is omitted; a list-valued entry = one
+   element per item, in order.  None = the value does not fit the schema (or
+   is a list of lists): the property says nothing. *)
 Definition ref_entry (d : edecl) (v : value) : option (list xnode) :=
-  if negb (conforming S d v) then None else
+  if negb (conforming S d v) || has_list_item v then None else
   match v with
   | VNone => Some []
   | _ => ref_elem S xstq d false v
@@ -450,12 +528,11 @@ Section Guard.
 Variable S : schema.
 Variable nstore : nat.
 
-(* a value for a declared part: fits the schema, is not a list (F19 a), is
-   an actual value (F19 c) *)
+(* a value for a declared part: fits the schema (None, lists of fitting items
+   and the empty list included); the items of a list-valued entry are not
+   lists themselves *)
 Definition entry_ok (d : edecl) (v : value) : bool :=
-  conforming S d v && negb (is_list v) && negb (is_none v).
-
-Definition is_val (h : hval) : bool := match h with HVal _ => true | HElem _ => false end.
+  conforming S d v && negb (has_list_item v).
 
 Fixpoint seq_guard (pts : list edecl) (hs : list hval) : bool :=
   match hs with
@@ -463,7 +540,7 @@ Fixpoint seq_guard (pts : list edecl) (hs : list hval) : bool :=
   | HElem i :: hs' => Nat.ltb i nstore && seq_guard pts hs'
   | HVal v :: hs' =>
       match pts with
-      | [] => forallb is_val hs'            (* no ready-made element after surplus values (F19 b) *)
+      | [] => seq_guard [] hs'              (* a surplus plain value: anything *)
       | d :: pts' => entry_ok d v && seq_guard pts' hs'
       end
   end.
@@ -474,7 +551,7 @@ Fixpoint dict_guard (pts : list edecl) (dict : list (name * value)) : bool :=
   | d :: pts' =>
       match dict_get (e_name d) dict with
       | None => dict_guard pts' dict
-      | Some v => (is_none v || entry_ok d v) && dict_guard pts' dict
+      | Some v => entry_ok d v && dict_guard pts' dict
       end
   end.
 
@@ -531,6 +608,22 @@ Fixpoint run_model (g : config) (m : nat) (st : store) (calls : list icall) : bo
   end.
 
 Definition hdr_agrees (c : hcase) : bool := run_model (h_cfg c) 0 (init_store c) (h_calls c).
+
+(* the same comparison against the function as it was before the repairs
+   (switches q): tells WHICH repaired defect an implementation shows again *)
+Definition send_q (q : quirks) (g : config) (m : nat) (st : store) : hres (list xnode * list str) * store :=
+  match headercontent_q (g_schema g) (g_xstq g) st q (g_pts g) (g_wsse g) (g_sh g) with
+  | HErr e => (HErr e, st)
+  | HOk (refs, stamps) => let '(ns, st') := attach m refs st in (HOk (ns, stamps), st')
+  end.
+Fixpoint run_model_q (q : quirks) (g : config) (m : nat) (st : store) (calls : list icall) : bool :=
+  match calls with
+  | [] => true
+  | c :: cs => let '(r, st') := send_q q g m st in
+               res_matches r (ic_res c) && store_matches st' (ic_after c) && run_model_q q g (Datatypes.S m) st' cs
+  end.
+Definition hdr_agrees_q (q : quirks) (c : hcase) : bool :=
+  run_model_q q (h_cfg c) 0 (init_store c) (h_calls c).
 
 Definition ires_eqb (a b : ires) : bool :=
   match a, b with
